@@ -180,6 +180,52 @@ pub fn run_detect(req: &Value) -> Value {
 	}
 }
 
+/// The four parser trials of detect.rs, asked directly of the third-party crates the way the xt trials ask them
+/// (fully available input), next to what xt's detection answers for a slice and for a reader.
+#[cfg(feature = "hooks")]
+pub fn run_trials(req: &Value) -> Value {
+	use serde::Deserialize;
+	let input = unhex(req["input"].as_str().unwrap_or("-"));
+	let res = catch_unwind(AssertUnwindSafe(|| {
+		let json = match std::str::from_utf8(&input) {
+			Ok(s) => {
+				let mut de = serde_json::Deserializer::from_str(s);
+				serde::de::IgnoredAny::deserialize(&mut de).is_ok()
+			}
+			Err(_) => false,
+		};
+		// the reader form of the JSON trial does not validate UTF-8 inside strings it skips
+		let json_reader = {
+			let mut de = serde_json::Deserializer::from_reader(&input[..]);
+			serde::de::IgnoredAny::deserialize(&mut de).is_ok()
+		};
+		let toml_ok = match std::str::from_utf8(&input) {
+			Ok(s) => serde::de::IgnoredAny::deserialize(toml::Deserializer::new(s)).is_ok(),
+			Err(_) => false,
+		};
+		// the YAML trial: re-encode as detected, first chunk must be a collection
+		let yaml = match xt::verif::yaml_encoder_from_reader(&input[..]) {
+			Ok(r) => match xt::verif::yaml_chunks(r).into_iter().next() {
+				Some(Ok((_, coll))) => coll,
+				_ => false,
+			},
+			Err(_) => false,
+		};
+		let ds = xt::verif::detect_slice(&input);
+		let dr = xt::verif::detect_reader(SchedReader::new(&input, Sched::Fixed(3), None));
+		let show = |d: io::Result<Option<xt::Format>>| match d {
+			Ok(Some(f)) => json!(format_name(f)),
+			Ok(None) => Value::Null,
+			Err(e) => json!(format!("error: {e}")),
+		};
+		json!({"id": req["id"], "json": json, "json_reader": json_reader, "toml": toml_ok, "yaml": yaml, "detected_slice": show(ds), "detected_reader": show(dr)})
+	}));
+	match res {
+		Ok(v) => v,
+		Err(_) => json!({"id": req["id"], "panic": true}),
+	}
+}
+
 /// Reads JSON requests from stdin, one per line; writes one response per line.
 /// Before each case its id is written to stderr so that a crash or hang can be
 /// attributed by the caller.
@@ -207,6 +253,8 @@ pub fn serve() {
 		let resp = match req.get("op").and_then(Value::as_str) {
 			#[cfg(feature = "hooks")]
 			Some("detect") => run_detect(&req),
+			#[cfg(feature = "hooks")]
+			Some("trials") => run_trials(&req),
 			_ => run_session(&req),
 		};
 		writeln!(out, "{resp}").unwrap();
